@@ -297,3 +297,22 @@ def run_c07(ctx: Ctx):
 
 
 REGISTRY["C07"] = run_c07
+
+
+def run_c10(ctx: Ctx):
+    import smark
+    ctx.level = "proof"
+    ctx.trusted_base = MARKER_PROOF_TRUST + [
+        "Model/MarkerOpen.v is GENERATED from Model/Marker.v (harness/gen_open.py): the bodies of the mutually recursive normaliser over a record of callees; level_S (reflexivity) re-checks on every build that they are Marker.v's functions",
+        "memoisation is modelled as the inductive family `reach`: cold computations, further steps over reachable callees, and cnf/dnf answering with what a reachable family returned for a ==-equal marker; "
+        "_merge_single_markers (key: structurally equal atoms) and parse_marker (key: the text) return identical results on a hit and are not modelled; per-object lazy caches are not modelled",
+        "the theorems are about MEANING; history independence of the rendered TEXT is decided by the direct oracle only (and fails for the recorded finding value-order-text-only)"] + MARKER_TRUST
+    props_spec.proof_step(ctx, "Props/C10.v", ["C10_reach_sound", "C10_meaning", "C10_history_independent", "step_sound", "level_S"], extra_targets=["Model/CorrMarker.v", "Model/MarkerOpen.v"])
+    ctx.coverage["explanation"] = ("theorems C10_reach_sound / C10_meaning / C10_history_independent over Model/MarkerOpen.v (meaning is history independent); the direct oracle runs random histories over key-equal spelling families and compares "
+                                   "text and truth table of the warm probe with the same probe run first in a fresh interpreter")
+    smark.stream_smark(ctx, 40 if ctx.tier == "quick" else 600, with_parse=False, with_only=False, with_eval=False)
+    pm.oracle_c10(ctx, _n(ctx, 250, 4000))
+    ctx.coverage["rule"] = "random histories of parse/&/| over key-equal spelling families followed by a probe; warm result vs result of the same probe run first in a fresh interpreter"
+
+
+REGISTRY["C10"] = run_c10
